@@ -29,7 +29,8 @@ TRUSTED_BASE = [
 ]
 ASSUMPTIONS = ["ASCII block/layout/layer/table/group names", "layout.add_entity() is only applied to unlinked entities (documented caller obligation); the misuse stream only checks rejected => unchanged",
                "explode() is not applied to an INSERT that lies inside the block it references (cyclic block definition, invalid DXF: explode_block_reference iterates the block while appending to it and never returns)"]
-OPEN = ["name lookups of blocks, layouts and layers are corresponded per step, not proved as a refinement (table entries and groups: proved, spec_add_entry / spec_remove_entry / spec_duplicate_entry / table_keys_unique / spec_new_group / spec_delete_group)",
+OPEN = ["the single refinement theorem abs (step s op) = specStep (abs s) op over all 29 operations is not assembled: the per-operation spec_* theorems plus content_exact / lookup_sound / iteration_filters_dead are the available form",
+        "name lookups of blocks, layouts and layers are corresponded per step, not proved as a refinement (table entries and groups: proved, spec_add_entry / spec_remove_entry / spec_duplicate_entry / table_keys_unique / spec_new_group / spec_delete_group)",
         "insert.explode(target_layout) with an explicit target other than the own layout: oracle O2 only (the model explodes into the layout of the INSERT)",
         "VPORT table (duplicate names allowed), dictionary entries other than groups, attribs added/removed after creation are outside the model",
         "query language beyond '*' and attribute filters (oracle only)"]
